@@ -58,3 +58,38 @@ def frame_report():
     r.vacuity = []
     r.seconds = time.time() - t0
     return r
+
+
+def schedule_report():
+    """generalized_belief_propagation reads `new[r1, r2]` for the edges in D[ru, rd] while it sweeps `self.message_order`: every such
+    edge must have been scheduled EARLIER in the sweep.  build_graph's D sets only hold edges whose source is a strict descendant
+    of ru (after the N & D cancellation; argument in DESIGN 3/C16, on paper), i.e. a strictly smaller region, so a schedule that
+    visits source regions by non-decreasing size satisfies it.  Decided here on the text of build_graph: the loop that fills
+    self.message_order iterates `sorted(<regions>, key=len)`.  Any other iterable leaves the ordering precondition UNDECIDED
+    (never a violation: another valid order is conceivable); the bounded tier runs the oracle on region graphs with three levels."""
+    import ast, time
+    from .. import deductive, frontend
+    from ..vc import solver as S
+    rel, q = 'src/mbi/region_graph.py', 'RegionGraph.build_graph'
+    r = deductive.FunctionReport(rel, q + ' [message schedule visits smaller source regions first]')
+    t0 = time.time()
+    try:
+        fn, _src, sha = frontend.get_function(rel, q)
+        loops = [n for n in ast.walk(fn) if isinstance(n, ast.For) and any(
+            isinstance(c, ast.Call) and ast.unparse(c.func).replace(' ', '') == 'self.message_order.append' for c in ast.walk(n))]
+        outer = [n for n in loops if not any(n is not m and n in ast.walk(m) for m in loops)]
+        text = ast.unparse(outer[0].iter).replace(' ', '') if len(outer) == 1 else ''
+        ok = text in ('sorted(regions,key=len)', 'sorted(self.regions,key=len)')
+        ob = S.Obligation('%s::%s/schedule-iterates-regions-by-nondecreasing-size' % (rel, q), [], None, function='%s::%s' % (rel, q), kind='wiring')
+        ob.verdict = 'discharged' if ok else 'unknown'
+        ob.backend = 'syntactic (AST match)'
+        ob.seconds = 0.0
+        ob.reason = '' if ok else 'the loop filling self.message_order iterates %r, not sorted(regions, key=len)' % text[:80]
+        ob.meta = {'base': ob.name}
+        r.obligations.append(ob)
+        r.sha = sha
+    except frontend.MissingAnchor as e:
+        r.undecided = 'anchor missing: %s' % e
+    r.vacuity = []
+    r.seconds = time.time() - t0
+    return r
